@@ -24,12 +24,20 @@ def run(R):
         raise vlib.MachineryError("vacuity: plaintext left in the buffer on failure is not rejected by the model")
     R.cov["model"] = {"module": "MCForgery", "distinct": r.distinct, "generated": r.generated, "broken_variants_rejected": 1}
     R.build_all(sorted({v for v, _ in CFGS}))
-    traces = []
+    traces, jobs = [], []
     for i, (variant, env) in enumerate(CFGS):
         exe = R.cc("forge_driver", ["forge_driver.c"], variant)
         tp = R.path("forge", "f%d.ndjson" % i)
-        R.run([exe, str(R.seed + i), "full" if thorough else "quick", tp], env=env, ok_codes=(0, 70), timeout=3000)
+        jobs.append(([exe, str(R.seed + i), "full" if thorough else "quick", tp], env))
         traces.append((tp, variant, env))
+    # associated data of 4 GiB + 64 bytes (sparse mapping): lengths whose upper 32 bits matter
+    for variant in (("native", "portable") if thorough else ("native",)):
+        tp = R.path("forge", "huge-%s.ndjson" % variant)
+        jobs.append(([R.cc("forge_driver", ["forge_driver.c"], variant), str(R.seed), "huge", tp], {}))
+        traces.append((tp, variant, {"mode": "huge"}))
+    from concurrent.futures import ThreadPoolExecutor
+    with ThreadPoolExecutor(max_workers=8) as ex:
+        list(ex.map(lambda j: R.run(j[0], env={k: v for k, v in j[1].items() if k != "mode"}, ok_codes=(0, 70), timeout=3000), jobs))
     res = R.tlc_shards("sys/TraceForgery.tla", "TraceForgery.cfg", [{"TRACE": t[0]} for t in traces], timeout=1800)
     trials = 0
     distinct = set()
